@@ -3084,8 +3084,6 @@ def prune_pre_subset(self, font, options):
     if not options.symbol_cmap:
         self.tables = [t for t in self.tables if not t.isSymbol()]
     # TODO(behdad) Only keep one subtable?
-    # For now, drop format=0 which can't be subset_glyphs easily?
-    self.tables = [t for t in self.tables if t.format != 0]
     self.numSubTables = len(self.tables)
     return True  # Required table
 
